@@ -132,6 +132,9 @@ def decode(label, store, **sig):
         md = [dict() for _ in range(n)]
         for cat in store[axis + '/metadata'].keys():
             ds = store[axis + '/metadata/' + cat]
+            if is_group(ds):
+                fail(label + ':metadata-category-not-a-dataset', f"{axis}/metadata/{cat} is a group", **sig)
+                continue
             arr = ds[:]
             if len(arr) != n:
                 fail(label + ':metadata-entry-count', f"{axis}/{cat}: {len(arr)} entries for {n} ids", **sig)
